@@ -4,6 +4,7 @@ import RbV.Model.AvlProofs
 import RbV.Model.AMapProofs
 import RbV.Model.IitIndex
 import RbV.Model.DumpProofs
+import RbV.Thm.GenSrcIit
 /-!
 # C07 — interval trees and the annotation map report exactly the overlapping entries; the AVL tree stays balanced
 
@@ -248,5 +249,104 @@ example :
 open RbV.Iit in
 example : endsIndexed [AOp.ins ⟨1, 2, 0⟩, .index, .ins ⟨0, 9, 1⟩] false = false ∧
     endsIndexed [AOp.ins ⟨1, 2, 0⟩, .index, .ins ⟨0, 9, 1⟩, .index] false = true := by decide
+
+/-! ## The source text of `index_core` (translated on every run, `Gen/SrcIit.lean`)
+
+`tools/rs2lean.py` translates `ArrayBackedIntervalTree::index_core` (the `for_each` over the even cells, the
+`while (1 << k) <= n` loop with its inner `step_by` loop, `last_i` / `last_value`); `N` is read at `Int`, an
+`InternalEntry` is the tuple `(data, (start, end), max)`, `GenSrcIit.cells` maps a vector of them to the model's cells. -/
+
+open RbV.Iit in
+/-- **`index_core` as written in the source = the mirror model**: for fewer than `2^62` entries the translated function
+never panics (no index out of range, no shift or addition overflows, the `while` loop ends within its fuel) and computes
+exactly the model's cells and `max_level` -/
+theorem iit_index_source_eq_model (es : List GenSrcIit.RCell) (ml : Nat) (hn : es.length < 2 ^ 62) :
+    ∃ es', Gen.SrcIit.indexCore Iit.max3 es ml = Rs.Res.ok (es', (indexCore (GenSrcIit.cells es) ml).2) ∧
+      GenSrcIit.cells es' = (indexCore (GenSrcIit.cells es) ml).1 :=
+  GenSrcIit.indexCore_eq_model es ml hn
+
+open RbV.Iit in
+/-- … hence the *translated* `index_core`, run on entries sorted by start, leaves every entry in place and establishes
+what the search needs (`iit_find_correct`): sortedness, `max` = an upper bound of the ends in every implicit subtree,
+`n < 2^(max_level+1)` — for every `n < 2^62`, power of two or not -/
+theorem iit_index_source_establishes (es : List GenSrcIit.RCell) (ml : Nat) (hn : es.length < 2 ^ 62)
+    (hs : SortedC (GenSrcIit.cells es)) :
+    ∃ es' ml', Gen.SrcIit.indexCore Iit.max3 es ml = Rs.Res.ok (es', ml') ∧
+      (GenSrcIit.cells es').map (·.e) = (GenSrcIit.cells es).map (·.e) ∧ SortedC (GenSrcIit.cells es') ∧
+      MaxUB (GenSrcIit.cells es') ∧ es'.length < 2 ^ (ml' + 1) := by
+  obtain ⟨es', h1, h2⟩ := iit_index_source_eq_model es ml hn
+  obtain ⟨g1, g2, g3, g4⟩ := iit_index_establishes (GenSrcIit.cells es) ml hs
+  refine ⟨es', _, h1, ?_, ?_, ?_, ?_⟩
+  · rw [h2]; exact g1
+  · rw [h2]; exact g2
+  · rw [h2]; exact g3
+  · have : es'.length = (GenSrcIit.cells es').length := (GenSrcIit.length_cells es').symm
+    rw [this, h2]; exact g4
+
+open RbV.Iit in
+/-- **`find_into` as written in the source = the mirror model's search** (`iit_find_source_eq_model`): on an indexed tree
+with `max_level ≤ 61` the translated function never panics (the 64-slot stack never overflows, no index is out of range,
+no shift or addition overflows, the fuel of the `while t > 0` loop suffices), clears the buffer it is given and fills it
+with exactly what the model's `findLoop` returns, in the same order; on an un-indexed tree it panics -/
+theorem iit_find_source_eq_model (es : List GenSrcIit.RCell) (K : Nat) (hK : K ≤ 61) (q : Query)
+    (res0 : List GenSrcIit.REntry) :
+    (∃ R, Gen.SrcIit.findInto Iit.max3 es K true (q.lo, q.hi) res0 = Rs.Res.ok R ∧
+      R.map GenSrcIit.toEntry = findLoop (GenSrcIit.cells es) es.length q [⟨K, (1 <<< K) - 1, false⟩]) ∧
+    Gen.SrcIit.findInto Iit.max3 es K false (q.lo, q.hi) res0 = Rs.Res.panic :=
+  ⟨GenSrcIit.findInto_eq_model es K hK q res0, GenSrcIit.findInto_not_indexed es K _ res0⟩
+
+open RbV.Iit in
+/-- **The translated pair answers exactly the overlapping entries, for every n**: run the *translated* `index_core` on
+entries sorted by start (what `index()` hands it after `sort_by_key`), then the *translated* `find_into` with any query and
+any (dirty) result buffer: neither panics, and the buffer ends up holding exactly the stored entries that overlap the
+query, in index order — fewer than `2^62` entries, `max_level ≤ 61` before (0 for a new tree) -/
+theorem iit_source_pair_answers_overlaps (es : List GenSrcIit.RCell) (ml : Nat) (hml : ml ≤ 61) (hn : es.length < 2 ^ 62)
+    (hs : SortedC (GenSrcIit.cells es)) (q : Query) (res0 : List GenSrcIit.REntry) :
+    ∃ es' ml' R, Gen.SrcIit.indexCore Iit.max3 es ml = Rs.Res.ok (es', ml') ∧
+      Gen.SrcIit.findInto Iit.max3 es' ml' true (q.lo, q.hi) res0 = Rs.Res.ok R ∧
+      R.map GenSrcIit.toEntry = expected ((GenSrcIit.cells es).map (·.e)) q := by
+  obtain ⟨es', h1, h2⟩ := iit_index_source_eq_model es ml hn
+  obtain ⟨g1, g2, g3, g4⟩ := iit_index_establishes (GenSrcIit.cells es) ml hs
+  have hlev := GenSrcIit.indexCore_level_le (GenSrcIit.cells es) ml hml (by rw [GenSrcIit.length_cells]; exact hn)
+  obtain ⟨R, r1, r2⟩ := GenSrcIit.findInto_eq_model es' _ hlev q res0
+  refine ⟨es', _, R, h1, r1, ?_⟩
+  rw [r2, ← GenSrcIit.length_cells es', h2, iit_find_correct _ _ q g2 g3 g4, g1]
+
+open RbV.Iit in
+/-- **`index` + `find_into` as written in the source answer every query with exactly the stored entries that overlap
+it** (as a multiset): for any sort satisfying `SortContract` (a permutation sorted by start — the trusted meaning of
+`sort_by_key(|e| e.interval.start)`), entries in any insertion order, fewer than `2^62` of them, any query and any dirty
+result buffer, the translated `index` sets the `indexed` flag without panicking and the translated `find_into` then fills
+the buffer with a permutation of `expected stored q`; a second `index` is a no-op -/
+theorem iit_source_index_find_answers (srt : List GenSrcIit.RCell → List GenSrcIit.RCell)
+    (hsrt : GenSrcIit.SortContract srt) (es : List GenSrcIit.RCell) (ml : Nat) (hml : ml ≤ 61)
+    (hn : es.length < 2 ^ 62) (q : Query) (res0 : List GenSrcIit.REntry) :
+    ∃ es' ml' R, Gen.SrcIit.index Iit.max3 srt es ml false = Rs.Res.ok (es', ml', true) ∧
+      Gen.SrcIit.index Iit.max3 srt es' ml' true = Rs.Res.ok (es', ml', true) ∧
+      Gen.SrcIit.findInto Iit.max3 es' ml' true (q.lo, q.hi) res0 = Rs.Res.ok R ∧
+      (R.map GenSrcIit.toEntry).Perm (expected ((GenSrcIit.cells es).map (·.e)) q) := by
+  have hl : (srt es).length < 2 ^ 62 := by rw [(hsrt es).1.length_eq]; exact hn
+  obtain ⟨es', h1, h2⟩ := GenSrcIit.index_eq_model srt hsrt es ml hn
+  obtain ⟨g1, g2, g3, g4⟩ := iit_index_establishes (GenSrcIit.cells (srt es)) ml (hsrt es).2
+  have hlev := GenSrcIit.indexCore_level_le (GenSrcIit.cells (srt es)) ml hml (by rw [GenSrcIit.length_cells]; exact hl)
+  obtain ⟨R, r1, r2⟩ := GenSrcIit.findInto_eq_model es' _ hlev q res0
+  refine ⟨es', _, R, h1, GenSrcIit.index_indexed srt es' _, r1, ?_⟩
+  rw [r2, ← GenSrcIit.length_cells es', h2, iit_find_correct _ _ q g2 g3 g4, g1]
+  unfold expected
+  exact (((hsrt es).1.map GenSrcIit.toCell).map (·.e)).filter _
+
+-- the translated `index_core` on five cells (n not a power of two, stale `max` fields): new `max` fields and level
+example : Gen.SrcIit.indexCore Iit.max3
+    [((0 : Int), ((0 : Int), (2 : Int)), (0 : Int)), (1, (1, 3), 99), (2, (2, 3), 0), (3, (2, 4), -5), (4, (3, 50), 0)] 0
+    = Rs.Res.ok ([(0, (0, 2), 2), (1, (1, 3), 3), (2, (2, 3), 3), (3, (2, 4), 50), (4, (3, 50), 50)], 2) := by
+  decide +kernel
+
+-- … and the translated `find_into` on the result, with a dirty buffer: the query [49, 50) meets only the last entry
+example : Gen.SrcIit.findInto Iit.max3
+    [((0 : Int), ((0 : Int), (2 : Int)), (2 : Int)), (1, (1, 3), 3), (2, (2, 3), 3), (3, (2, 4), 50), (4, (3, 50), 50)] 2 true
+    (49, 50) [((7, 8), 9)] = Rs.Res.ok [((3, 50), 4)] := by decide +kernel
+example : Gen.SrcIit.findInto Iit.max3
+    [((0 : Int), ((0 : Int), (2 : Int)), (2 : Int)), (1, (1, 3), 3), (2, (2, 3), 3), (3, (2, 4), 50), (4, (3, 50), 50)] 2 true
+    (2, 3) [] = Rs.Res.ok [((1, 3), 1), ((2, 3), 2), ((2, 4), 3)] := by decide +kernel
 
 end RbV.Thm.C07
